@@ -725,6 +725,10 @@ T('C11', 'twin-str-hash-header-if-signatures', PGP, "            hhdr = 'Hash: {
   "            hhdr = ''\n            if self.signatures:\n                hhdr = 'Hash: ' + ','.join(sorted(hashes)) + '\\n'")
 M('C11', 'hash-header-if-no-signatures', PGP, "            hhdr = 'Hash: {hashes:s}\\n'.format(hashes=','.join(sorted(hashes))) if hashes else ''",
   "            hhdr = ''\n            if not self.signatures:\n                hhdr = 'Hash: ' + ','.join(sorted(hashes)) + '\\n'", 'C11.3')
+T('C11', 'twin-dash-per-line-str-methods', PGP, _ESC, "        return '\\n'.join('- ' + line if line.startswith('-') else line for line in text.split('\\n'))",
+  more=[(PGP, _UNE, "        return '\\n'.join(line.removeprefix('- ') for line in text.split('\\n'))")])
+M('C11', 'escape-per-line-wrong-prefix-test', PGP, _ESC, "        return '\\n'.join('- ' + line if line.startswith('--') else line for line in text.split('\\n'))", 'C11.1')
+M('C11', 'unescape-per-line-removes-dash-only', PGP, _UNE, "        return '\\n'.join(line.removeprefix('-') for line in text.split('\\n'))", 'C11.1')
 
 # =============================================================================================== C09
 M('C09', 'enc-191', TY, "            if 192 > nl:\n                return Header.int_to_bytes(nl)", "            if 191 > nl:\n                return Header.int_to_bytes(nl)", 'C09.1')
